@@ -24,6 +24,29 @@ def replay(model, obligation):
                 if p.max_attempts != given or type(p.max_attempts) is not type(given) or n != (50 if given is None else min(given, 50)):
                     fails.append('%s(max_attempts=%r) stores %r and schedules %d attempts' % (cls.__name__, given, p.max_attempts, n))
         return {'reproduced': bool(fails), 'detail': '; '.join(fails[:3]) or 'the constructors store max_attempts as given'}
+    if '_add_jitter' in obligation:
+        import random
+        b, m, v = _num(model.get('base_delay', 1)), _num(model.get('max_delay', 2)), _num(model.get('value', 1))
+        p = policies.ExponentialReconnectionPolicy(b, m, ma)
+        fails, asked = [], []
+        real, real_p = random.randint, getattr(policies, 'randint', None)
+        try:
+            for j in (85, 100, 115, int(_num(model.get('jitter', 100)))):
+                random.randint = lambda a, bb, j=j: asked.append((a, bb)) or j
+                if real_p is not None:
+                    policies.randint = random.randint
+                for value in (v, b, m, (b + m) / 2.0):
+                    got = p._add_jitter(value)
+                    want = min(max(b, j * value / 100.0), m)
+                    if not (b <= got <= m) or abs(got - want) > 1e-9 * max(1.0, abs(want)):
+                        fails.append('_add_jitter(%r) with jitter %d%% under (base %r, max %r) = %r, expected %r' % (value, j, b, m, got, want))
+        finally:
+            random.randint = real
+            if real_p is not None:
+                policies.randint = real_p
+        if set(asked) != {(85, 115)}:
+            fails.append('jitter drawn from %r, expected randint(85, 115)' % (sorted(set(asked)),))
+        return {'reproduced': bool(fails), 'detail': '; '.join(fails[:3]) or 'jitter within band and bounds at the model values'}
     if 'Constant' in obligation:
         d = _num(model.get('delay', 1))
         p = policies.ConstantReconnectionPolicy(d, ma)
